@@ -176,16 +176,23 @@ def describe(run, pos):
     return "record %d of the run: %s" % (pos, json.dumps(rec))
 
 
-def model_checks(ctx, cfgs, negs, live=None):
+def model_checks(ctx, cfgs, negs, live=None, need_actions=()):
     if os.environ.get("VERIF_RT_SKIP_MC") == "1":
         # only for mutation experiments in a scratch copy (tools/scratch.sh): binding part alone
         vlib.log("VERIF_RT_SKIP_MC=1: model checking skipped (mutation experiment)")
         ctx.cov["model_checking_skipped"] = True
         return
-    for cfg, note in cfgs:
-        res = ctx.model_check(MOD, cfg, workers=8, timeout=3000, xmx="10g")
+    for k, (cfg, note) in enumerate(cfgs):
+        res = ctx.model_check(MOD, cfg, workers=8, timeout=3000, xmx="10g", coverage=(k == 0))
         vlib.require_ok(res, cfg)
         ctx.add_tlc(cfg, res, note)
+        if k == 0:
+            # every action the predicates depend on must have been taken (DESIGN 3.1)
+            need = ["CallAtomic", "ArbDequeue", "ArbStartTask", "ArbDeregister", "CtrlStep", "RunReturn"] + list(need_actions)
+            missing = [a for a in need if sum(res.coverage.get(a, (0, 0))) == 0]
+            if missing:
+                raise vlib.ToolError("%s: actions never taken: %s" % (cfg, missing))
+            ctx.cov["model_actions_taken"] = {a: res.coverage[a][1] for a in need}
     if live:
         res = ctx.model_check(MOD, live, workers=4, timeout=1200)
         vlib.require_ok(res, live)
